@@ -27,7 +27,7 @@ def search(pid, f):
                 w = fn(pid, f)
                 if w: return w
     if pid in ('C09', 'C10', 'C12', 'C13', 'C18'):
-        for (name, fn) in (('gen_framing', gen_framing), ('gen_sock', gen_sock)) + ((('gen_sock_faults', gen_sock_faults),) if pid in ('C12', 'C18') else ()):
+        for (name, fn) in (('gen_framing', gen_framing), ('gen_sock', gen_sock)) + ((('gen_sock_faults', gen_sock_faults),) if pid in ('C12', 'C18', 'C09') else ()):
             if name not in tried:
                 w = fn(pid, f)
                 if w: return w
@@ -111,6 +111,23 @@ def run_witness(w):
             out2 = _steps(w['lines'])
             bad = 'completes true' not in out2
         return {'output': out, 'violates': bad, 'required': w.get('required')}
+    if kind == 'sock-correlation':
+        def problem():
+            got, eof = _sock(w['lines'])
+            frs, err = _frames_of(bytes.fromhex(got))
+            if err: return err, got
+            reqs = [struct.unpack('>BBHBBHIIQ', bytes.fromhex(x)[:24]) for x in w['sent']]
+            k = 0
+            for fr in frs:
+                if fr['magic'] != 0x81: return 'response with magic 0x%02x' % fr['magic'], got
+                if fr['klen'] + fr['elen'] > fr['blen']: return 'key + extras > body', got
+                while k < len(reqs) and not (reqs[k][1] == fr['op'] and reqs[k][7] == fr['opaque']): k += 1
+                if k == len(reqs): return 'response (opcode 0x%02x, opaque 0x%08x) answers no request sent on this connection' % (fr['op'], fr['opaque']), got
+                k += 1
+            return None, got
+        why, got = problem()
+        if why: why, got = problem()
+        return {'output': ['recv ' + got], 'violates': bool(why), 'why': why, 'required': w.get('required')}
     if kind == 'sock':
         got, eof = _sock_stable(w['lines'], w['expect_recv'])
         bad = got != w['expect_recv']
@@ -304,6 +321,10 @@ def sock_pipelines():
     two_mib = b'w' * (2 << 20)
     P.append(('2 MiB item under a 4 MiB limit', 4 << 20, [f_set(b'L', two_mib), f_key(0x0c, b'L') , noop]))
     P.append(('600-byte item under a 512-byte limit', 512, [f_set(b's', b'x' * 600), f_key(0, b's'), noop]))
+    bad = bytearray(f_set(b'z', b'9')); bad[0] = 0x55
+    P.append(('answered requests, then a silent quiet one at the end', 1048576, [f_set(b'a', b'1'), noop, f_set(b'b', b'2', op=0x11)]))
+    P.append(('answered requests, then the beginning of another frame', 1048576, [f_set(b'a', b'1'), noop, f_set(b'c', b'3')[:30]]))
+    P.append(('answered requests, then a header with a corrupted magic byte', 1048576, [f_set(b'a', b'1'), noop, bytes(bad)]))
     P.append(('setq x3 then get', 1048576, [f_set(b'a', b'1', op=0x11), f_set(b'b', b'2', op=0x11), f_set(b'c', b'3', op=0x11), f_key(0, b'b')]))
     return P
 
@@ -384,6 +405,59 @@ def gen_sock_faults(pid, f):
     if w: return w
     return None
 gen_sock_faults.last_count = 0
+
+# ------------------------------------------------------------------------------------------------
+# C11 over TCP, with an oracle that does not depend on the code under test: whatever the server writes on a
+# connection must be a sequence of whole, well-formed response frames, each correlated (opcode and opaque) with a
+# request sent on that connection, in request order.  The streams end in requests that are malformed at the header
+# or body level (key too long, extras too long, key announced but missing, unknown data type, bad magic).
+def _frames_of(b):
+    out = []
+    i = 0
+    while i + 24 <= len(b):
+        magic, op, klen, elen, dt, status, blen, opaque, cas = struct.unpack('>BBHBBHIIQ', b[i:i + 24])
+        if i + 24 + blen > len(b): return out, 'truncated frame at byte %d (announces %d body bytes, %d present)' % (i, blen, len(b) - i - 24)
+        out.append({'magic': magic, 'op': op, 'klen': klen, 'elen': elen, 'status': status, 'blen': blen, 'opaque': opaque})
+        i += 24 + blen
+    if i != len(b): return out, '%d trailing bytes that are not a frame' % (len(b) - i)
+    return out, None
+
+def gen_sock_correlation(pid, f):
+    good = [f_set(b'a', b'1', opaque=0x01010101), f_key(0x0c, b'a', opaque=0x02020202), hdr(0x0a, opaque=0x03030303)]
+    bads = {
+        'key of 300 bytes': hdr(0x01, key=300, extras=8, body=8 + 300 + 1, opaque=0x0badbad1) + b'\0' * 8 + b'k' * 300 + b'v',
+        'extras of 40 bytes': hdr(0x01, key=1, extras=40, body=42, opaque=0x0badbad2) + b'\0' * 40 + b'kv',
+        'get without its key': hdr(0x00, key=0, extras=0, body=0, opaque=0x0badbad3),
+        'set whose body is shorter than key + extras': hdr(0x01, key=4, extras=8, body=6, opaque=0x0badbad4) + b'\0' * 6,
+        'unknown data type': hdr(0x01, key=1, extras=8, body=10, opaque=0x0badbad5, dt=7) + b'\0' * 8 + b'kv',
+        'request magic 0x81': hdr(0x0a, opaque=0x0badbad6, magic=0x81),
+    }
+    gen_sock_correlation.last_count = 0
+    for name, bad in bads.items():
+        for deliver in ('one segment', 'malformed request in its own segment'):
+            sent = good + [bad]
+            lines = ['send ' + b''.join(sent).hex()] if deliver == 'one segment' else ['send ' + b''.join(good).hex(), 'sleep 60', 'send ' + bad.hex()]
+            lines += ['recv 300']
+            gen_sock_correlation.last_count += 1
+            def problem():
+                got, eof = _sock(lines)
+                frs, err = _frames_of(bytes.fromhex(got))
+                if err: return err
+                reqs = [struct.unpack('>BBHBBHIIQ', x[:24]) for x in sent]
+                k = 0
+                for fr in frs:
+                    if fr['magic'] != 0x81: return 'response with magic 0x%02x' % fr['magic']
+                    if fr['klen'] + fr['elen'] > fr['blen']: return 'response announces key %d + extras %d > body %d' % (fr['klen'], fr['elen'], fr['blen'])
+                    while k < len(reqs) and not (reqs[k][1] == fr['op'] and reqs[k][7] == fr['opaque']): k += 1
+                    if k == len(reqs): return 'response (opcode 0x%02x, opaque 0x%08x) answers no request sent on this connection (in order)' % (fr['op'], fr['opaque'])
+                    k += 1
+                return None
+            why = problem()
+            if why and problem():      # timing guard: has to show twice
+                return {'kind': 'sock-correlation', 'lines': lines, 'sent': [x.hex() for x in sent], 'what': 'three valid requests followed by a request with %s (%s): %s' % (name, deliver, why),
+                        'required': 'everything written is a sequence of whole response frames (magic 0x81, key + extras <= body), each carrying the opcode and opaque of a request sent on this connection, in request order'}
+    return None
+gen_sock_correlation.last_count = 0
 
 # ------------------------------------------------------------------------------------------------
 # C15 (and C01 with "random eviction, limit not reached"): a workload that only stores NEW keys, deletes (cas 0,
